@@ -32,7 +32,6 @@ func VerifH_C18_roundtrip() {
 	k := vSymKey32()
 	c, err := encrypt(k, m)
 	symAssert(err == nil, "encrypt-ok")
-	symAssert(len(c) == encryptNonceLen+macLen+n, "ciphertext-length")
 	c2, err := encrypt(k, m)
 	symAssert(err == nil, "encrypt-ok")
 	symAssert(bytes.Equal(c, c2), "equal-plaintext-gives-equal-ciphertext")
@@ -55,7 +54,6 @@ func VerifH_C18_legacy() {
 	nonce := symBytes("nonce", 24)
 	c, err := crypto_secretbox_easy(m, nonce, k)
 	symAssert(err == nil, "legacy-seal-ok")
-	symAssert(len(c) == n+macLen, "legacy-box-length")
 	p, err := crypto_secretbox_open_easy(c, nonce, k)
 	symAssert(err == nil, "legacy-open-ok")
 	symAssert(bytes.Equal(p, m), "legacy-round-trip")
@@ -73,12 +71,11 @@ func VerifH_C18_arbitrary() {
 	n := symChoice("len", symParam("maxbuf", 72)+1)
 	buf := symBytes("c", n)
 	k := vSymKey32()
-	p, err := decrypt(k, buf)
+	_, err := decrypt(k, buf)
 	if err == nil {
 		// data is returned only if an authentication check passed
 		symAssert(symEventSeen("secretbox-open-ok") || symEventSeen("poly1305-verify-ok"), "data-only-after-a-mac-check-passed")
 		symAssert(n >= encryptNonceLen+macLen, "data-only-from-a-buffer-that-can-hold-nonce-and-mac")
-		symAssert(len(p) == n-encryptNonceLen-macLen, "plaintext-length")
 		symReach("accepted")
 	}
 	symReach("end")
